@@ -41,6 +41,22 @@ async fn run(mut s: Sim, mut rng: Rng, len: usize) -> Sim {
         }
         let ix = s.pp_configure(&admin, PpSetting::BackupLimit(3)); s.op(tx(vec![ix])).await;
     }
+    if (s.n >> 32) % 4 == 2 {
+        // C08: both pause flags set at once (in both orders): grant and deny of a pending request are refused, and each flag can be cleared
+        // on its own; afterwards everything works as if never paused
+        let mode = s.access_mode(&K::User(300), &svcs[1], 5, None);
+        let ix = s.pp_request(&users[3], &svcs[1], &mode); s.op(tx(vec![ix])).await;
+        for order in [[PpSetting::RequestPaused(true), PpSetting::Paused(true)], [PpSetting::Paused(true), PpSetting::RequestPaused(true)]] {
+            for st in order { let ix = s.pp_configure(&admin, st); s.op(tx(vec![ix])).await; }
+            let ix = s.pp_grant(&sentinel, &svcs[1], &users[3]); s.op(tx(vec![ix])).await;
+            let ix = s.pp_deny(&sentinel, &svcs[1]); s.op(tx(vec![ix])).await;
+            let ix = s.pp_request(&users[4], &svcs[2], &mode); s.op(tx(vec![ix])).await;
+            let ix = s.pp_configure(&admin, PpSetting::Paused(false)); s.op(tx(vec![ix])).await;
+            let ix = s.pp_request(&users[4], &svcs[2], &mode); s.op(tx(vec![ix])).await;       // request-only pause still on: refused
+            let ix = s.pp_configure(&admin, PpSetting::RequestPaused(false)); s.op(tx(vec![ix])).await;
+        }
+        let ix = s.pp_grant(&sentinel, &svcs[1], &users[3]); s.op(tx(vec![ix])).await;
+    }
     let mut pending: Vec<(K, K)> = vec![];   // (service key, payer) of requests believed pending
     for _ in 0..len {
         let mut payer = if rng.chance(1, 7) { sentinel.clone() } else { rng.pick(&users[2..]).clone() };   // incl. sentinel = requester
